@@ -2166,6 +2166,13 @@ pub fn parse(input: &str, code_source_id: usize) -> ParseResult<'_> {
     parser.parse(tokens)
 }
 
+/// Verification hook (feature `verif-hooks`): run the parser on an explicit token
+/// stream (the part of `parse` after tokenization).
+#[cfg(feature = "verif-hooks")]
+pub fn verif_parse_tokens<'a>(tokens: &[Token<'a>]) -> ParseResult<'a> {
+    Parser::new().parse(tokens)
+}
+
 #[cfg(test)]
 pub fn parse_dexpr(input: &str) -> TypeExpression {
     let tokens = crate::tokenizer::tokenize(input, 0).expect("No tokenizer errors in tests");
